@@ -18,6 +18,24 @@ The regex is the AST CPython builds from the string the code assembles: literal 
 inserted as they are (only characters that are no regex metacharacters are representable as
 `Tok.lit`; the harness sends nothing else), `*` is `[^/]+`, a `**` segment is `.*` when it stands
 first and `(?:/.*)?` when it follows another segment, the named segment is `(?P<key>…)`.
+
+Also modelled: a template WITHOUT named segment (`toRegexUnnamed`; accepted by the code, key = field
+name), client-streaming methods (`header`: no request at call time, the parameter loops are not
+rendered), the schema-side `RoutingRule.resolve` (`resolveSchema`; it feeds the expected values
+of the emitted unit tests and differs from the emitted chain on empty values).
+
+NOT modelled (stated, reached by T2/T3 or outside C06):
+* what the emitted `regex_match.group("<field>")` does for a template without named segment that
+  matches (IndexError at call time; routing.proto demands exactly one named segment);
+* literal segments with regex metacharacters (inserted unescaped by the code), templates whose
+  named segment is not a whole `/`-separated run (`x{k=*}y`, `{a}~{b}`), `{key}` without `=`;
+* non-string routing fields: implicit routing sends `str(value)` through urlencode (ints are covered by
+  T3 as decimal strings; enums/bools only as recorded probes); explicit routing calls `re.match` on
+  the value and raises TypeError for non-strings;
+* `RoutingParameter.sample_request` / `uri_sample` (input of the emitted tests, C13/C14);
+* the ads templates' copy of `create_metadata` (same macro text; covered by a T3 stream only);
+* `routing_header.to_grpc_metadata`'s lru_cache and the REST transport's `dict(metadata)` (a
+  duplicate header key would collapse; never produced by one `create_metadata`).
 No Mathlib.
 -/
 namespace GapicModel.Model.Routing
@@ -121,6 +139,15 @@ def templateItems (t : Template) : List Re :=
 /-- `RoutingParameter.to_regex()` -/
 def toRegex (t : Template) : Pattern :=
   ⟨seqR (.bol :: templateItems t ++ [.eol]), 1, [(String.ofList t.key, 1)]⟩
+
+/-- `RoutingParameter.to_regex()` of a template WITHOUT named segment (the code accepts it:
+    `_how_many_named_segments` only rejects more than one): no group; `key` falls back to the field -/
+def toRegexUnnamed (ts : List Tok) : Pattern :=
+  ⟨seqR (.bol :: mergeToks ts ++ [.eol]), 0, []⟩
+
+/-- does `routing_param_regex.match(v)` succeed for such a template -/
+def matchesUnnamed (ct : ClassTables) (ts : List Tok) (v : List Char) : Bool :=
+  (pyMatch ct (toRegexUnnamed ts).re v).isSome
 
 /-- `RoutingParameter.key` for a parameter with a path template: the first (only) group name -/
 def templateKey (t : Template) : List Char := t.key
@@ -280,12 +307,47 @@ def pathVars : List PSeg → List (List Char)
 structure Method where
   routing : Option (List Param)          -- `some ps`: google.api.routing present
   verbs : List (List Char)               -- get, put, post, delete, patch, custom.path
+  clientStreaming : Bool := false        -- `requests` iterator instead of a request
 deriving Repr
 
+/-- the header `create_metadata` adds.  For a client-streaming method neither loop is rendered:
+    explicit routing leaves `header_params` empty (nothing sent); implicit routing still appends
+    `to_grpc_metadata(())`, i.e. the header with an EMPTY value, when the path has variables. -/
 def header (ct : ClassTables) (m : Method) (r : Request) : Option (List Char) :=
   match m.routing with
-  | some ps => explicitHeader ct ps r
-  | none => implicitHeader ct (primaryPath m.verbs) r
+  | some ps => if m.clientStreaming then none else explicitHeader ct ps r
+  | none =>
+    if m.clientStreaming then
+      (match fieldHeaders ct (primaryPath m.verbs) with
+       | [] => none
+       | _ => some [])
+    else implicitHeader ct (primaryPath m.verbs) r
+
+/-! ### schema side: `RoutingRule.resolve` (expected values of the emitted unit tests) -/
+
+/-- the request as the dict `_get_field` walks: `none` when a path segment is missing -/
+abbrev DictRequest := List Char → Option (List Char)
+
+/-- one iteration of `resolve`: no disambiguation (dict keys are proto names), no emptiness test
+    (`if regex_match:` / `is not None`) -/
+def contribSchema (ct : ClassTables) (r : DictRequest) (p : Param) : Option (List Char × List Char) :=
+  match r p.field with
+  | none => none
+  | some v =>
+    match p.template with
+    | none => some (p.field, v)
+    | some t =>
+      match pyMatch ct (toRegex t).re v with
+      | some res => some (t.key, (St.group? res.caps 1).getD [])
+      | none => none
+
+def stepSchema (ct : ClassTables) (r : DictRequest) (acc : List (List Char × List Char)) (p : Param) :=
+  match contribSchema ct r p with
+  | some (k, v) => dictSet acc k v
+  | none => acc
+
+def resolveSchema (ct : ClassTables) (ps : List Param) (r : DictRequest) : List (List Char × List Char) :=
+  ps.foldl (stepSchema ct r) []
 
 /-! ### template language, stated without regular expressions (reference for `capture`) -/
 
